@@ -362,4 +362,111 @@ theorem confirmSeq_stays : ∀ (app : List Blk) (i : Inp), i.leaf = none →
     rw [confirmSeq, hsame]
     exact confirmSeq_stays bs i hl (fun b' hb' => h b' (by simp [hb']))
 
+/-! ## acceptance -/
+
+/-- leaf counts along the apply leg: they do not shrink, and every created element lies below the
+count of the block that creates it -/
+def AppLeaves : Nat → List Blk → Prop
+  | _, [] => True
+  | n, b :: bs => n ≤ b.leavesAfter ∧ (∀ p ∈ b.created, p.2 < b.leavesAfter) ∧ AppLeaves b.leavesAfter bs
+
+def LeafBound (n : Nat) (ts : List Txn) : Prop := ∀ t ∈ ts, ∀ i ∈ t.inputs, ∀ lf, i.leaf = some lf → lf < n
+
+theorem applyLeg_accepts : ∀ (app : List Blk) (n : Nat) (ts : List Txn), LeafBound n ts → AppLeaves n app →
+    (foldOpt rebaseApply (some ts) app).isSome = true
+  | [], _, _, _, _ => rfl
+  | b :: bs, n, ts, hb, hw => by
+    rw [foldOpt]
+    have hrem : LeafBound b.leavesAfter ((ts.filter fun t => !(b.v2txns.map (·.id)).contains t.id).map (mapInputs (confirmInp b.created))) := by
+      intro t' ht' i' hi' lf hlf
+      obtain ⟨t, ht, rfl⟩ := List.mem_map.1 ht'
+      simp only [mapInputs, List.mem_map] at hi'
+      obtain ⟨i, hi, rfl⟩ := hi'
+      unfold confirmInp at hlf
+      cases hl : i.leaf with
+      | some lf0 =>
+        simp only [hl] at hlf
+        have hlf' : i.leaf = some lf := hl.trans hlf
+        have := hb t (List.mem_filter.1 ht).1 i hi lf hlf'
+        exact Nat.lt_of_lt_of_le this hw.1
+      | none =>
+        simp only [hl] at hlf
+        cases hc : b.created.lookup i.elem with
+        | none => simp only [hc] at hlf; rw [hl] at hlf; cases hlf
+        | some lf1 =>
+          simp only [hc, Option.some.injEq] at hlf
+          subst hlf
+          exact hw.2.1 _ (lookup_some_mem _ _ _ hc)
+    have hall : (((ts.filter fun t => !(b.v2txns.map (·.id)).contains t.id).map (mapInputs (confirmInp b.created))).all
+        (proofsOk b.leavesAfter)) = true := by
+      rw [List.all_eq_true]
+      intro t ht
+      unfold proofsOk
+      rw [List.all_eq_true]
+      intro i hi
+      cases hl : i.leaf with
+      | none => rfl
+      | some lf => simpa using hrem t ht i hi lf hl
+    unfold rebaseApply
+    simp only [hall, if_true]
+    exact applyLeg_accepts bs b.leavesAfter _ hrem hw.2.2
+
+/-- the revert leg's consistency including leaf counts: what the ledger holds and the block did not
+create lies below the block's parent leaf count -/
+def RevPathWF2 : Ledger → List Blk → Prop
+  | _, [] => True
+  | l, b :: bs => RevWF l b ∧ (∀ e lf, l.leafOf e = some lf → e ∉ ids b.created → lf < b.leavesBefore) ∧
+      RevPathWF2 (l.revert b) bs
+
+theorem revertLeg_accepts : ∀ (rev : List Blk) (l : Ledger) (ts : List Txn), LeafOK l ts → RevPathWF2 l rev →
+    (∀ b ∈ rev, ∀ t ∈ ts, ∀ i ∈ t.inputs, i.elem ∉ ids b.created) →
+    (rev.all fun b => ts.all (proofsOk b.leavesBefore)) = true ∧ LeafOK (rev.foldl Ledger.revert l) ts
+  | [], _, _, h, _, _ => ⟨rfl, h⟩
+  | b :: bs, l, ts, h, hw, hk => by
+    have hp : ts.all (proofsOk b.leavesBefore) = true := by
+      rw [List.all_eq_true]
+      intro t ht
+      unfold proofsOk
+      rw [List.all_eq_true]
+      intro i hi
+      cases hl : i.leaf with
+      | none => rfl
+      | some lf => simpa using hw.2.1 _ _ (h t ht i hi lf hl) (hk b (by simp) t ht i hi)
+    obtain ⟨r1, r2⟩ := revertLeg_accepts bs (l.revert b) ts (h.revert b hw.1 hp) hw.2.2 (fun b' hb' => hk b' (by simp [hb']))
+    exact ⟨by simp [hp, r1], r2⟩
+
+/-- **acceptance**: a set whose proofs core accepts at the basis is moved over any path within the
+supported distance, provided no reverted block created an input of the set (nothing "vanishes"),
+the path's blocks are consistent with the ledgers they meet, and the verifier is sound -/
+theorem rebase_accepts (cfg : Cfg) (ts : List Txn) (rev app : List Blk) (lfrom : Ledger)
+    (hb : ts.all basisOk = true) (hlen : rev.length + app.length ≤ cfg.maxReorg)
+    (hbasis : ∀ t ∈ ts, ∀ i ∈ t.inputs, ∀ lf, i.leaf = some lf → i.bad = false → lfrom.leafOf i.elem = some lf)
+    (hrev : RevPathWF2 lfrom rev)
+    (hkept : ∀ b ∈ rev, ∀ t ∈ ts, ∀ i ∈ t.inputs, i.elem ∉ ids b.created)
+    (hmid : ∀ e lf, (rev.foldl Ledger.revert lfrom).leafOf e = some lf → lf < (rev.foldl Ledger.revert lfrom).numLeaves)
+    (happ : AppLeaves (rev.foldl Ledger.revert lfrom).numLeaves app) :
+    (rebase cfg ts (some (rev, app))).isSome = true := by
+  have h0 : LeafOK lfrom ts := by
+    intro t ht i hi lf hlf
+    have := List.all_eq_true.1 hb t ht
+    unfold basisOk at this
+    have := List.all_eq_true.1 this i hi
+    simp only [hlf, Bool.not_eq_true'] at this
+    exact hbasis t ht i hi lf hlf this
+  obtain ⟨r1, r2⟩ := revertLeg_accepts rev lfrom ts h0 hrev hkept
+  unfold rebase
+  simp only [hb, Bool.not_true, Bool.false_eq_true, ↓reduceIte]
+  rw [if_neg (by omega), revertLeg_eq, r1]
+  simp only [↓reduceIte]
+  apply applyLeg_accepts app _ ts ?_ happ
+  intro t ht i hi lf hlf
+  exact hmid _ _ (r2 t ht i hi lf hlf)
+
+/-- a checkable form of "every leaf the ledger holds lies below `n`" -/
+theorem leaves_lt_of_all (l : Ledger) (n : Nat) (h : (l.unspent.all fun p => decide (p.2 < n)) = true) :
+    ∀ e lf, l.leafOf e = some lf → lf < n := by
+  intro e lf he
+  have := List.all_eq_true.1 h _ (lookup_some_mem e lf _ he)
+  simpa using this
+
 end Verif.Pool
